@@ -95,3 +95,36 @@ Print Assumptions c14_planar_mwpm_syndrome_graph.
 Print Assumptions c14_tdistance_periodic.
 Print Assumptions c14_toric_graph_complete.
 Print Assumptions c14_toric_graph_sound.
+
+(* ---- re-exported by tools/reexport.py: statements copied from `Check`, closed by `exact` ---- *)
+From QV Require Import Decoders.MatchBound Decoders.PlanarErrPairs Decoders.PlanarMwpmCorrect Decoders.PlanarMwpmBrute.
+Theorem c14_planar_mwpm_corrects_all : planar_mwpm_corrects_statement.
+Proof. exact planar_mwpm_corrects_all. Qed.
+Theorem c14_planar_mwpm_corrects : forall rows cols : Z, 2 <= rows -> 2 <= cols -> forall (e : bsf) (mwp mwd : wmates), length e = (Planar.planar_n rows cols + Planar.planar_n rows cols)%nat -> Z.of_nat (xweight rows cols e) <= tcap rows cols -> Z.of_nat (zweight rows cols e) <= tcap rows cols -> let syn := syndrome_of (Code.stabs (Planar.planar_code rows cols)) e in min_perfect_in (MwpmGraph.primal_graph rows cols syn) (PlanarMwpm.primal_nodes rows cols syn) mwp -> min_perfect_in (MwpmGraph.dual_graph rows cols syn) (PlanarMwpm.dual_nodes rows cols syn) mwd -> exists r : bsf, PlanarMwpm.mwpm_recovery rows cols (unw mwp ++ unw mwd) = Some r /\ length r = (Planar.planar_n rows cols + Planar.planar_n rows cols)%nat /\ syndrome_of (Code.stabs (Planar.planar_code rows cols)) r = syn /\ in_spanP (Planar.planar_n rows cols + Planar.planar_n rows cols) (Code.stabs (Planar.planar_code rows cols)) (xorv r e).
+Proof. exact planar_mwpm_corrects. Qed.
+Theorem c14_planar_mwpm_corrects_mates : forall rows cols : Z, 2 <= rows -> 2 <= cols -> forall (e : bsf) (mp md : list (Z * Z * (Z * Z))), length e = (Planar.planar_n rows cols + Planar.planar_n rows cols)%nat -> Z.of_nat (xweight rows cols e) <= tcap rows cols -> Z.of_nat (zweight rows cols e) <= tcap rows cols -> let syn := syndrome_of (Code.stabs (Planar.planar_code rows cols)) e in min_matching (MwpmGraph.primal_graph rows cols syn) (PlanarMwpm.primal_nodes rows cols syn) mp -> min_matching (MwpmGraph.dual_graph rows cols syn) (PlanarMwpm.dual_nodes rows cols syn) md -> exists r : bsf, PlanarMwpm.mwpm_recovery rows cols (mp ++ md) = Some r /\ length r = (Planar.planar_n rows cols + Planar.planar_n rows cols)%nat /\ syndrome_of (Code.stabs (Planar.planar_code rows cols)) r = syn /\ in_spanP (Planar.planar_n rows cols + Planar.planar_n rows cols) (Code.stabs (Planar.planar_code rows cols)) (xorv r e).
+Proof. exact planar_mwpm_corrects_mates. Qed.
+Theorem c14_planar_mwpm_corrects_weight : forall rows cols : Z, 2 <= rows -> 2 <= cols -> forall (e : bsf) (mwp mwd : wmates), length e = (Planar.planar_n rows cols + Planar.planar_n rows cols)%nat -> Z.of_nat (bsf_wt e) <= tcap rows cols -> let syn := syndrome_of (Code.stabs (Planar.planar_code rows cols)) e in min_perfect_in (MwpmGraph.primal_graph rows cols syn) (PlanarMwpm.primal_nodes rows cols syn) mwp -> min_perfect_in (MwpmGraph.dual_graph rows cols syn) (PlanarMwpm.dual_nodes rows cols syn) mwd -> exists r : bsf, PlanarMwpm.mwpm_recovery rows cols (unw mwp ++ unw mwd) = Some r /\ length r = (Planar.planar_n rows cols + Planar.planar_n rows cols)%nat /\ syndrome_of (Code.stabs (Planar.planar_code rows cols)) r = syn /\ in_spanP (Planar.planar_n rows cols + Planar.planar_n rows cols) (Code.stabs (Planar.planar_code rows cols)) (xorv r e).
+Proof. exact planar_mwpm_corrects_weight. Qed.
+Theorem c14_planar_perfect_matching_exists : forall rows cols : Z, 2 <= rows -> 2 <= cols -> forall e : bsf, length e = (Planar.planar_n rows cols + Planar.planar_n rows cols)%nat -> let syn := syndrome_of (Code.stabs (Planar.planar_code rows cols)) e in (exists m : list (Z * Z * (Z * Z)), Permutation.Permutation (MwpmRel.ends2 m) (PlanarMwpm.primal_nodes rows cols syn) /\ MwpmGraph.uses (MwpmGraph.primal_graph rows cols syn) m) /\ (exists m : list (Z * Z * (Z * Z)), Permutation.Permutation (MwpmRel.ends2 m) (PlanarMwpm.dual_nodes rows cols syn) /\ MwpmGraph.uses (MwpmGraph.dual_graph rows cols syn) m).
+Proof. exact planar_perfect_matching_exists. Qed.
+Theorem c14_planar_mwpm_decode_corrects : forall matcher : list (Z * Z * (Z * Z) * option Z) -> list (Z * Z) -> list (Z * Z * (Z * Z)), (forall (g : list (Z * Z * (Z * Z) * option Z)) (nodes : list (Z * Z)), (exists m : list (Z * Z * (Z * Z)), Permutation.Permutation (MwpmRel.ends2 m) nodes /\ MwpmGraph.uses g m) -> min_matching g nodes (matcher g nodes)) -> forall rows cols : Z, 2 <= rows -> 2 <= cols -> forall e : bsf, let n := Planar.planar_n rows cols in let S := Code.stabs (Planar.planar_code rows cols) in length e = (n + n)%nat -> Z.of_nat (count_true (firstn n e)) <= (Z.min rows cols - 1) / 2 -> Z.of_nat (count_true (skipn n e)) <= (Z.min rows cols - 1) / 2 -> exists r : bsf, planar_mwpm_decode matcher rows cols (syndrome_of S e) = Some r /\ length r = (n + n)%nat /\ syndrome_of S r = syndrome_of S e /\ in_spanP (n + n) S (xorv r e).
+Proof. exact planar_mwpm_decode_corrects. Qed.
+Theorem c14_brute_matcher_contract : forall (g : list (Z * Z * (Z * Z) * option Z)) (nodes : list (Z * Z)), (exists m : list (Z * Z * (Z * Z)), Permutation.Permutation (MwpmRel.ends2 m) nodes /\ MwpmGraph.uses g m) -> min_matching g nodes (brute_matcher g nodes).
+Proof. exact brute_matcher_contract. Qed.
+Theorem c14_planar_mwpm_brute_corrects : forall rows cols : Z, 2 <= rows -> 2 <= cols -> forall e : bsf, let n := Planar.planar_n rows cols in let S := Code.stabs (Planar.planar_code rows cols) in length e = (n + n)%nat -> Z.of_nat (count_true (firstn n e)) <= (Z.min rows cols - 1) / 2 -> Z.of_nat (count_true (skipn n e)) <= (Z.min rows cols - 1) / 2 -> exists r : bsf, planar_mwpm_decode brute_matcher rows cols (syndrome_of S e) = Some r /\ length r = (n + n)%nat /\ syndrome_of S r = syndrome_of S e /\ in_spanP (n + n) S (xorv r e).
+Proof. exact planar_mwpm_brute_corrects. Qed.
+Theorem c14_defects_matching_le_weight : forall rows cols : Z, 2 <= rows -> 2 <= cols -> forall (pr : bool) (ds : list (Z * Z)) (extra : Z * Z), (forall q : Z * Z, In q ds -> In q (Planar.plaquette_indices rows cols) /\ LatticeArith.planar_is_primal q = pr) -> NoDup ds -> ~ PlanarAll.instrip rows cols extra -> forall e : bsf, length e = (Planar.planar_n rows cols + Planar.planar_n rows cols)%nat -> (forall q : Z * Z, In q ds <-> In q (Planar.plaquette_indices rows cols) /\ LatticeArith.planar_is_primal q = pr /\ bsp e (PlanarAll.stab rows cols q) = true) -> exists mw : wmates, perfect_in (MwpmGraph.planar_graph rows cols ds extra) (PlanarMwpm.lattice_nodes rows cols ds extra) mw /\ wtotal mw <= Z.of_nat (count_true (part rows cols pr e)).
+Proof. exact defects_matching_le_weight. Qed.
+Theorem c14_light_commuting_in_span : forall rows cols : Z, 2 <= rows -> 2 <= cols -> forall f : bsf, length f = (Planar.planar_n rows cols + Planar.planar_n rows cols)%nat -> (forall s : bsf, In s (Code.stabs (Planar.planar_code rows cols)) -> bsp f s = false) -> Z.of_nat (count_true (firstn (Planar.planar_n rows cols) f)) < rows -> Z.of_nat (count_true (skipn (Planar.planar_n rows cols) f)) < cols -> in_spanP (Planar.planar_n rows cols + Planar.planar_n rows cols) (Code.stabs (Planar.planar_code rows cols)) f.
+Proof. exact light_commuting_in_span. Qed.
+Print Assumptions c14_planar_mwpm_corrects_all.
+Print Assumptions c14_planar_mwpm_corrects.
+Print Assumptions c14_planar_mwpm_corrects_mates.
+Print Assumptions c14_planar_mwpm_corrects_weight.
+Print Assumptions c14_planar_perfect_matching_exists.
+Print Assumptions c14_planar_mwpm_decode_corrects.
+Print Assumptions c14_brute_matcher_contract.
+Print Assumptions c14_planar_mwpm_brute_corrects.
+Print Assumptions c14_defects_matching_le_weight.
+Print Assumptions c14_light_commuting_in_span.
